@@ -3,13 +3,14 @@
 # worktree, confirm its variants independently (scratch worktree: build, vet, suite, demo fails with / passes without),
 # keep the confirmed ones under seeded/, and run the property's quick check against each.
 out=$1; wt=$2; shift 2
+dirs=""
 for p in "$@"; do
   git -C /repo worktree remove --force $wt/$p 2>/dev/null
   for v in $out/$p/*; do
-    [ -f $v/patch.diff ] || continue
-    python3 /verif/tools/seeded.py confirm $v
+    [ -f $v/patch.diff ] && dirs="$dirs $v"
   done
 done
+echo $dirs | tr ' ' '\n' | grep . | xargs -P 4 -n 1 python3 /verif/tools/seeded.py confirm
 names=""
 for p in "$@"; do for v in $out/$p/*; do n=$p-$(basename $v); [ -d /verif/seeded/$n ] && names="$names $n"; done; done
-[ -n "$names" ] && python3 /verif/tools/seeded.py run $names -j 2
+[ -n "$names" ] && python3 /verif/tools/seeded.py run $names -j 3
